@@ -1,5 +1,6 @@
 import Abyss.Db
 import Abyss.Props.C01
+import Abyss.Lemmas.BulkL
 /-!
 # C14 — bulk and convenience calls equal their element-wise counterparts
 
@@ -13,12 +14,110 @@ are bytes); the tie exercises them with the crate's own conversions.
 namespace Abyss
 open Store
 
+/-! ## auxiliary lemmas -/
+
+/-- looking up index `i` among answers stored by index -/
+theorem find_answers (g : Nat → Option (List Nat)) (order : List Nat) (i : Nat) (hi : i ∈ order) :
+    (((order.map fun j => (j, g j)).find? (·.1 = i)).map (·.2)).getD none = g i := by
+  induction order with
+  | nil => cases hi
+  | cons a order ih =>
+    by_cases ha : a = i
+    · subst ha; simp
+    · have hi' : i ∈ order := by
+        rcases List.mem_cons.1 hi with e | e
+        · exact absurd e.symm ha
+        · exact e
+      simpa [List.find?_cons, ha] using ih hi'
+
+/-- answers stored by index for every index of the batch come back in input order -/
+theorem restore_answers (ks : List (List Nat)) (f : List Nat → Option (List Nat)) (order : List Nat)
+    (hperm : order.Perm (List.range ks.length)) :
+    restore ks.length (order.map fun i => (i, f (ks.getD i []))) = ks.map f := by
+  rw [map_eq_range_getD ks f]
+  unfold restore
+  apply List.map_congr_left
+  intro i hi
+  exact find_answers (fun i => f (ks.getD i [])) order i (hperm.mem_iff.2 hi)
+
+theorem order_lt {n : Nat} {order : List Nat} (hperm : order.Perm (List.range n)) :
+    ∀ i ∈ order, i < n := fun _ hi => List.mem_range.1 (hperm.mem_iff.1 hi)
+
+theorem order_keys_perm (ks : List (List Nat)) (order : List Nat)
+    (hperm : order.Perm (List.range ks.length)) :
+    (order.map fun i => ks.getD i []).Perm ks := by
+  have := hperm.map (fun i => ks.getD i [])
+  rwa [range_map_getD] at this
+
+theorem bulkGetIn_spec {kt : KeyType} {s : Store} (h : Inv kt s) (ks : List (List Nat))
+    (order : List Nat) (hks : ∀ i ∈ order, KeyOK kt (ks.getD i [])) :
+    s.bulkGetIn kt ks order = some (order.map fun i => (i, Spec.get (abs s) (ks.getD i []))) := by
+  unfold bulkGetIn
+  induction order with
+  | nil => simp
+  | cons i order ih =>
+    have h1 := get_spec h _ (hks i (List.mem_cons_self ..))
+    have h2 := ih (fun j hj => hks j (List.mem_cons_of_mem _ hj))
+    rw [List.mapM_cons, h1, h2]
+    rfl
+
+theorem bulkDelIn_spec {kt : KeyType} (ks : List (List Nat)) (order : List Nat) :
+    ∀ {s : Store}, Inv kt s → (∀ i ∈ order, KeyOK kt (ks.getD i [])) →
+      (order.map fun i => ks.getD i []).Nodup →
+      ∃ s', bulkDelIn kt s ks order
+            = some (s', order.map fun i => (i, Spec.get (abs s) (ks.getD i []))) ∧ Inv kt s' ∧
+        Spec.Equiv (abs s') ((order.map fun i => ks.getD i []).foldl Spec.del (abs s)) := by
+  induction order with
+  | nil =>
+    intro s h _ _
+    exact ⟨s, rfl, h, Spec.Equiv.refl _ (abs_nodup h)⟩
+  | cons i order ih =>
+    intro s h hks hnd
+    simp only [List.map_cons, List.nodup_cons] at hnd
+    obtain ⟨s1, hd, h1, _, he1⟩ := del_spec h _ (hks i (List.mem_cons_self ..))
+    obtain ⟨s', hb, h', he'⟩ := ih h1 (fun j hj => hks j (List.mem_cons_of_mem _ hj)) hnd.2
+    refine ⟨s', ?_, h', ?_⟩
+    · simp only [bulkDelIn, hd, hb, List.map_cons]
+      congr 3
+      apply List.map_congr_left
+      intro j hj
+      have hne : ks.getD j [] ≠ ks.getD i [] := by
+        intro e
+        exact hnd.1 (e ▸ List.mem_map.2 ⟨j, hj, rfl⟩)
+      rw [he1.2.2, Spec.get_del_ne _ _ _ hne]
+    · simp only [List.map_cons, List.foldl_cons]
+      exact he'.trans (he1.foldl_del _)
+
+theorem putAll_spec {kt : KeyType} (kvs : List (List Nat × List Nat)) :
+    ∀ {s : Store}, Inv kt s → (∀ p ∈ kvs, KeyOK kt p.1) →
+    ∃ s', s.putAll kt kvs = some s' ∧ Inv kt s' ∧
+      Spec.Equiv (abs s') (kvs.foldl (fun m p => Spec.put m p.1 p.2) (abs s)) := by
+  induction kvs with
+  | nil =>
+    intro s h _
+    exact ⟨s, rfl, h, Spec.Equiv.refl _ (abs_nodup h)⟩
+  | cons p kvs ih =>
+    intro s h hks
+    obtain ⟨k, v⟩ := p
+    obtain ⟨s1, hp, h1, _, he1⟩ := put_spec h k v (hks (k, v) (List.mem_cons_self ..))
+    obtain ⟨s', hb, h', he'⟩ := ih h1 (fun q hq => hks q (List.mem_cons_of_mem _ hq))
+    refine ⟨s', ?_, h', ?_⟩
+    · simp only [putAll, hp, hb]
+    · simp only [List.foldl_cons]
+      exact he'.trans (he1.foldl_put _)
+
+/-! ## the theorems -/
+
 /-- `bulk_get` returns at position `i` what `get` of the `i`-th key returns — for any batch
 (repeated keys allowed) and any processing order -/
 theorem C14_bulk_get {kt : KeyType} {s : Store} (h : Inv kt s) (ks : List (List Nat))
     (hks : ∀ k ∈ ks, KeyOK kt k) (order : List Nat) (hperm : order.Perm (List.range ks.length)) :
     s.bulkGet kt ks order = some (ks.map fun k => Spec.get (abs s) k) := by
-  sorry
+  have hk : ∀ i ∈ order, KeyOK kt (ks.getD i []) := fun i hi =>
+    hks _ (getD_mem_of_lt ks i (order_lt hperm i hi))
+  unfold bulkGet
+  rw [bulkGetIn_spec h ks order hk, Option.map_some,
+    restore_answers ks (fun k => Spec.get (abs s) k) order hperm]
 
 /-- `bulk_delete` of a batch without repeated keys returns at position `i` what `delete` of the
 `i`-th key would return, and leaves the map as the individual deletes would — for any processing
@@ -28,14 +127,32 @@ theorem C14_bulk_delete {kt : KeyType} {s : Store} (h : Inv kt s) (ks : List (Li
     (hperm : order.Perm (List.range ks.length)) :
     ∃ s', s.bulkDelete kt ks order = some (s', ks.map fun k => Spec.get (abs s) k) ∧ Inv kt s' ∧
       Spec.Equiv (abs s') (ks.foldl Spec.del (abs s)) := by
-  sorry
+  have hk : ∀ i ∈ order, KeyOK kt (ks.getD i []) := fun i hi =>
+    hks _ (getD_mem_of_lt ks i (order_lt hperm i hi))
+  have hp := order_keys_perm ks order hperm
+  obtain ⟨s', hb, h', he⟩ := bulkDelIn_spec (kt := kt) ks order h hk (hp.nodup_iff.2 hnd)
+  refine ⟨s', ?_, h', he.trans (Spec.foldl_del_perm _ (abs_nodup h) hp)⟩
+  unfold bulkDelete
+  rw [hb, Option.map_some, restore_answers ks (fun k => Spec.get (abs s) k) order hperm]
 
 /-- the element-wise counterpart: deleting the keys one by one in input order gives those same
 answers (for a batch without repeats) -/
 theorem C14_delete_elementwise (m : Spec.Map) (ks : List (List Nat)) (hnd : ks.Nodup) :
     (Spec.run m (ks.map Op.del)).2 = ks.map (fun k => Out.val (Spec.get m k)) ∧
     (Spec.run m (ks.map Op.del)).1 = ks.foldl Spec.del m := by
-  sorry
+  induction ks generalizing m with
+  | nil => exact ⟨rfl, rfl⟩
+  | cons k ks ih =>
+    simp only [List.nodup_cons] at hnd
+    obtain ⟨ih1, ih2⟩ := ih (Spec.del m k) hnd.2
+    simp only [List.map_cons, Spec.run, Spec.step, List.foldl_cons]
+    refine ⟨?_, ih2⟩
+    rw [ih1]
+    congr 1
+    apply List.map_congr_left
+    intro k' hk'
+    have hne : k' ≠ k := fun e => hnd.1 (e ▸ hk')
+    rw [Spec.get_del_ne _ _ _ hne]
 
 /-- `bulk_put` of a batch without repeated keys leaves the map exactly as the individual puts
 in input order would — for any processing order; `put_from_iter` is the case `order = input` -/
@@ -43,13 +160,15 @@ theorem C14_bulk_put {kt : KeyType} {s : Store} (h : Inv kt s) (kvs kvs' : List 
     (hks : ∀ p ∈ kvs, KeyOK kt p.1) (hnd : (kvs.map Prod.fst).Nodup) (hperm : kvs'.Perm kvs) :
     ∃ s', s.putAll kt kvs' = some s' ∧ Inv kt s' ∧
       Spec.Equiv (abs s') (kvs.foldl (fun m p => Spec.put m p.1 p.2) (abs s)) := by
-  sorry
+  have hks' : ∀ p ∈ kvs', KeyOK kt p.1 := fun p hp => hks p (hperm.mem_iff.1 hp)
+  obtain ⟨s', hb, h', he⟩ := putAll_spec (kt := kt) kvs' h hks'
+  exact ⟨s', hb, h', he.trans (Spec.foldl_put_perm _ (abs_nodup h) hnd hperm)⟩
 
 /-- `put_from_iter` applies the pairs in iteration order (repeats allowed: later pairs win) -/
 theorem C14_put_from_iter {kt : KeyType} {s : Store} (h : Inv kt s) (kvs : List (List Nat × List Nat))
     (hks : ∀ p ∈ kvs, KeyOK kt p.1) :
     ∃ s', s.putAll kt kvs = some s' ∧ Inv kt s' ∧
       Spec.Equiv (abs s') (kvs.foldl (fun m p => Spec.put m p.1 p.2) (abs s)) := by
-  sorry
+  exact putAll_spec kvs h hks
 
 end Abyss
